@@ -625,7 +625,9 @@ func precedesInCFG(fn *ssa.Function, a, b ssa.Instruction) bool {
 
 func checkC18(c *Ctx) {
 	c.rulePartialField("T6.partial", func(f *ssa.Function) bool { return strings.Contains(name(f), "efi/device.") })
-	c.ruleCodeUnits("T7.units", func(f *ssa.Function) bool { return strings.Contains(name(f), "efi/device.") || strings.Contains(name(f), "efivar") },
+	c.ruleCodeUnits("T7.units", func(f *ssa.Function) bool {
+		return strings.Contains(name(f), "efi/device.") || strings.Contains(name(f), "efivar")
+	},
 		map[string]bool{M + "/efi/device.EFILoadOption.Description": true, M + "/efi/device.FileTypeMediaDevicePath.PathName": true})
 	c.R.Floor("T7.units", 1)
 	// H2: boot names
